@@ -283,9 +283,13 @@ def maxL : List Nat → Nat
   | [] => 0
   | x :: xs => max x (maxL xs)
 
+def dedupN : List Nat → List Nat
+  | [] => []
+  | x :: xs => if x ∈ xs then dedupN xs else x :: dedupN xs
+
 /-- number of distinct signers attached to a block -/
 def sigCount (att : List (Nat × Nat)) (hash : Nat) : Nat :=
-  ((att.filter (fun p => p.1 == hash)).map (·.2)).eraseDups.length
+  (dedupN ((att.filter (fun p => p.1 == hash)).map (·.2))).length
 
 /-- `CurrentBlock().Height()` of a linear chain -/
 def currentHeight (ch : Chain) : Nat := maxL (ch.known.map (·.height))
@@ -352,20 +356,30 @@ def pmInsert (n : Node) (b : Blk) : Node × Bool := pmInsertG true [] n b
     `victim = some h`: the schedule in which the timer's `go pm.insertBlock` of block `h` completes between
     the loop's `HasBlock(h)` check and the loop's own `InsertBlock(h)`; `none` = sequential run.
     `fix = false`: before commit 2ae7988 every insert error aborted the message. -/
+def rcvBlockAt (fix : Bool) (victim : Option Nat) (addF : Blk → BlockCache → BlockCache) (q : Nat)
+    (n : Node) (b : Blk) : Node × Bool :=
+  -- `(node after this block, keep going with the rest of the message?)`
+  if b.height ≤ stableHeight q n.chain || hasBlock n.chain b.hash then (n, true)
+  else if hasBlock n.chain b.parent then
+    let n1 : Node := if victim = some b.hash then (pmInsertG fix [] n b).1 else n
+    let r := pmInsertG fix [] n1 b
+    if r.2 then (r.1, true)
+    else if fix && hasBlock r.1.chain b.hash then (r.1, true)
+    else (r.1, false)
+  else if b.height ≤ 1 then (n, false)
+  else ({ n with bc := addF b n.bc, requests := (b.height - 1) :: n.requests }, true)
+
+/-- one block of the message: first the sender's status is raised (`UpdateStatus`), then `rcvBlockAt` -/
+def rcvBlock (fix : Bool) (victim : Option Nat) (addF : Blk → BlockCache → BlockCache) (q : Nat)
+    (n0 : Node) (b : Blk) : Node × Bool :=
+  rcvBlockAt fix victim addF q { n0 with peerMax := max n0.peerMax b.height } b
+
 def rcvBlocksG (fix : Bool) (victim : Option Nat) (addF : Blk → BlockCache → BlockCache) (q : Nat) :
     Node → List Blk → Node
   | n, [] => n
   | n, b :: rest =>
-    let n := { n with peerMax := max n.peerMax b.height }
-    if b.height ≤ stableHeight q n.chain || hasBlock n.chain b.hash then rcvBlocksG fix victim addF q n rest
-    else if hasBlock n.chain b.parent then
-      let n1 : Node := if victim = some b.hash then (pmInsertG fix [] n b).1 else n
-      let r := pmInsertG fix [] n1 b
-      if r.2 then rcvBlocksG fix victim addF q r.1 rest
-      else if fix && hasBlock r.1.chain b.hash then rcvBlocksG fix victim addF q r.1 rest
-      else r.1
-    else if b.height ≤ 1 then n
-    else rcvBlocksG fix victim addF q { n with bc := addF b n.bc, requests := (b.height - 1) :: n.requests } rest
+    let r := rcvBlock fix victim addF q n b
+    if r.2 then rcvBlocksG fix victim addF q r.1 rest else r.1
 
 /-- the receive loop of the current code in a sequential run -/
 def rcvBlocks (addF : Blk → BlockCache → BlockCache) (q : Nat) : Node → List Blk → Node :=
